@@ -110,6 +110,9 @@ static int parse_value_lit(toks *t, cif_value_tp **out, int *owned) {
     return -1;
 }
 
+/* the call under test: single allocation failures (C17) are counted and injected only while the gate is open */
+#define API(e) ({ __typeof__(e) api_r_; wrap_gate(1); api_r_ = (e); wrap_gate(0); api_r_; })
+
 /* ---------- parse support ---------- */
 typedef struct {
     /* error policy */
@@ -280,7 +283,7 @@ static void cmd_parse(toks *t) {
     f = fmemopen(BUF[bi].n ? (void *) BUF[bi].p : (void *) "", BUF[bi].n, "rb");
     if (!f) { ob_puts(&OUT, "ERR fmemopen"); free(o); return; }
     v = kv(t, "opts");
-    rc = cif_parse(f, (v && strcmp(v, "null") == 0) ? NULL : o, target);
+    rc = API(cif_parse(f, (v && strcmp(v, "null") == 0) ? NULL : o, target));
     fclose(f);
     if (isnew && ci >= 0) { if (CIFS[ci]) cif_destroy(CIFS[ci]); CIFS[ci] = cif; }
     else if (isnew && cif) cif_destroy(cif);
@@ -421,6 +424,7 @@ static void cmd_walk(toks *t) {
     pctx c; int ci = slot(t->tok[1], 'C', NCIF), rc; cif_handler_tp h = HANDLER; const char *v;
     memset(&c, 0, sizeof c); c.first = 1; c.log_handlers = 1;
     if (ci < 0 || !CIFS[ci]) { ob_puts(&OUT, "ERR cif slot"); return; }
+    if ((v = kv(t, "log"))) c.log_handlers = atoi(v);
     parse_prog(kv(t, "prog"), &c);
     if ((v = kv(t, "null"))) {
         int m = atoi(v);
@@ -431,7 +435,7 @@ static void cmd_walk(toks *t) {
         if (m & 256) h.handle_packet_start = NULL; if (m & 512) h.handle_packet_end = NULL;
         if (m & 1024) h.handle_item = NULL;
     }
-    rc = cif_walk(CIFS[ci], &h, &c);
+    rc = API(cif_walk(CIFS[ci], &h, &c));
     ob_printf(&OUT, "{\"rc\":%d,\"ncalls\":%d,\"after_stop\":%d,\"autocommit\":%d,\"log\":[%s]}", rc, c.ncalls, c.bad_after_stop,
               sqlite3_get_autocommit(CIFS[ci]->db), c.log.s ? c.log.s : "");
     h_free(c.prog_idx); h_free(c.prog_resp); h_free(c.log.s);
@@ -446,7 +450,7 @@ static void cmd_write(toks *t) {
     if ((v = kv(t, "v"))) o->cif_version = atoi(v);
     f = open_memstream(&mem, &memn);
     v = kv(t, "opts");
-    rc = cif_write(f, (v && strcmp(v, "null") == 0) ? NULL : o, CIFS[ci]);
+    rc = API(cif_write(f, (v && strcmp(v, "null") == 0) ? NULL : o, CIFS[ci]));
     fclose(f);
     BUF[bi].n = 0; bb_append(&BUF[bi], (unsigned char *) mem, memn);
     h_free(mem); free(o);
@@ -503,16 +507,16 @@ static void exec_cmd(toks *t) {
     const char *c = t->tok[0];
     if (strcmp(c, "reset") == 0) { reset_all(); ob_printf(&OUT, "{\"rc\":0,\"live\":%ld}", wrap_live()); return; }
     if (strcmp(c, "cif.new") == 0) { NEED(2); GETSLOT(ci, 1, 'C', NCIF, CIFS, 0);
-        if (CIFS[ci]) { cif_destroy(CIFS[ci]); CIFS[ci] = NULL; } put_rc(cif_create(&CIFS[ci])); return; }
+        if (CIFS[ci]) { cif_destroy(CIFS[ci]); CIFS[ci] = NULL; } put_rc(API(cif_create(&CIFS[ci]))); return; }
     if (strcmp(c, "cif.destroy") == 0) { NEED(2); GETSLOT(ci, 1, 'C', NCIF, CIFS, 1);
-        { int rc = cif_destroy(CIFS[ci]); CIFS[ci] = NULL; put_rc(rc); } return; }
+        { int rc = API(cif_destroy(CIFS[ci])); CIFS[ci] = NULL; put_rc(rc); } return; }
     if (strcmp(c, "blk.create") == 0 || strcmp(c, "blk.get") == 0) { NEED(4); GETSLOT(ci, 1, 'C', NCIF, CIFS, 1);
         { int isnull, hi = slot(t->tok[3], 'H', NCONT), rc; UChar *code = tok_ustr(t->tok[2], &isnull); cif_container_tp *h = NULL;
-          rc = (c[4] == 'c') ? cif_create_block(CIFS[ci], code, hi >= 0 ? &h : NULL) : cif_get_block(CIFS[ci], code, hi >= 0 ? &h : NULL);
+          rc = API((c[4] == 'c') ? cif_create_block(CIFS[ci], code, hi >= 0 ? &h : NULL) : cif_get_block(CIFS[ci], code, hi >= 0 ? &h : NULL));
           if (hi >= 0 && (rc == CIF_OK || h)) store_cont(hi, h);
           h_free(code); put_rc(rc); } return; }
     if (strcmp(c, "blk.all") == 0) { NEED(2); GETSLOT(ci, 1, 'C', NCIF, CIFS, 1);
-        { cif_block_tp **bs = NULL; int rc = cif_get_all_blocks(CIFS[ci], &bs), i;
+        { cif_block_tp **bs = NULL; int rc = API(cif_get_all_blocks(CIFS[ci], &bs)), i;
           ob_printf(&OUT, "{\"rc\":%d,\"codes\":[", rc);
           if (rc == CIF_OK) { for (i = 0; bs[i]; i++) { UChar *code = NULL; if (i) ob_putc(&OUT, ',');
                 if (cif_container_get_code(bs[i], &code) == CIF_OK) ob_jstr(&OUT, code); else ob_puts(&OUT, "null");
@@ -520,63 +524,63 @@ static void exec_cmd(toks *t) {
           ob_puts(&OUT, "]}"); } return; }
     if (strcmp(c, "frm.create") == 0 || strcmp(c, "frm.get") == 0) { NEED(4); GETSLOT(pi, 1, 'H', NCONT, CONT, 1);
         { int isnull, hi = slot(t->tok[3], 'H', NCONT), rc; UChar *code = tok_ustr(t->tok[2], &isnull); cif_container_tp *h = NULL;
-          rc = (c[4] == 'c') ? cif_container_create_frame(CONT[pi], code, hi >= 0 ? &h : NULL) : cif_container_get_frame(CONT[pi], code, hi >= 0 ? &h : NULL);
+          rc = API((c[4] == 'c') ? cif_container_create_frame(CONT[pi], code, hi >= 0 ? &h : NULL) : cif_container_get_frame(CONT[pi], code, hi >= 0 ? &h : NULL));
           if (hi >= 0 && (rc == CIF_OK || h)) store_cont(hi, h);
           h_free(code); put_rc(rc); } return; }
     if (strcmp(c, "frm.all") == 0) { NEED(2); GETSLOT(pi, 1, 'H', NCONT, CONT, 1);
-        { cif_container_tp **bs = NULL; int rc = cif_container_get_all_frames(CONT[pi], &bs), i;
+        { cif_container_tp **bs = NULL; int rc = API(cif_container_get_all_frames(CONT[pi], &bs)), i;
           ob_printf(&OUT, "{\"rc\":%d,\"codes\":[", rc);
           if (rc == CIF_OK) { for (i = 0; bs[i]; i++) { UChar *code = NULL; if (i) ob_putc(&OUT, ',');
                 if (cif_container_get_code(bs[i], &code) == CIF_OK) ob_jstr(&OUT, code); else ob_puts(&OUT, "null");
                 if (code) free(code); cif_container_free(bs[i]); } free(bs); }
           ob_puts(&OUT, "]}"); } return; }
     if (strcmp(c, "cont.code") == 0) { NEED(2); GETSLOT(hi, 1, 'H', NCONT, CONT, 1);
-        { UChar *code = NULL; int rc = cif_container_get_code(CONT[hi], &code); ob_printf(&OUT, "{\"rc\":%d,\"code\":", rc); ob_jstr(&OUT, code); ob_putc(&OUT, '}'); if (code) free(code); } return; }
-    if (strcmp(c, "cont.isblock") == 0) { NEED(2); GETSLOT(hi, 1, 'H', NCONT, CONT, 1); put_rc(cif_container_assert_block(CONT[hi])); return; }
+        { UChar *code = NULL; int rc = API(cif_container_get_code(CONT[hi], &code)); ob_printf(&OUT, "{\"rc\":%d,\"code\":", rc); ob_jstr(&OUT, code); ob_putc(&OUT, '}'); if (code) free(code); } return; }
+    if (strcmp(c, "cont.isblock") == 0) { NEED(2); GETSLOT(hi, 1, 'H', NCONT, CONT, 1); put_rc(API(cif_container_assert_block(CONT[hi]))); return; }
     if (strcmp(c, "cont.destroy") == 0) { NEED(2); GETSLOT(hi, 1, 'H', NCONT, CONT, 1);
-        { int rc; drop_dependents(hi); rc = cif_container_destroy(CONT[hi]); if (rc == CIF_OK || rc == CIF_INVALID_HANDLE) CONT[hi] = NULL; /* the handle is released in both cases */ put_rc(rc); } return; }
+        { int rc; drop_dependents(hi); rc = API(cif_container_destroy(CONT[hi])); if (rc == CIF_OK || rc == CIF_INVALID_HANDLE) CONT[hi] = NULL; /* the handle is released in both cases */ put_rc(rc); } return; }
     if (strcmp(c, "cont.free") == 0) { NEED(2); GETSLOT(hi, 1, 'H', NCONT, CONT, 1); drop_dependents(hi); cif_container_free(CONT[hi]); CONT[hi] = NULL; put_rc(0); return; }
-    if (strcmp(c, "cont.prune") == 0) { NEED(2); GETSLOT(hi, 1, 'H', NCONT, CONT, 1); put_rc(cif_container_prune(CONT[hi])); return; }
+    if (strcmp(c, "cont.prune") == 0) { NEED(2); GETSLOT(hi, 1, 'H', NCONT, CONT, 1); put_rc(API(cif_container_prune(CONT[hi]))); return; }
     if (strcmp(c, "cont.dump") == 0) { NEED(2); GETSLOT(hi, 1, 'H', NCONT, CONT, 1); dump_container(&OUT, CONT[hi]); return; }
     if (strcmp(c, "loop.create") == 0) { /* loop.create H cat n names... L|- ; n=-1 passes names=NULL */
         NEED(5); GETSLOT(hi, 1, 'H', NCONT, CONT, 1);
         { int isnull, pos = 3, cnt, li, rc; UChar *cat = tok_ustr(t->tok[2], &isnull); UChar **names = read_names(t, &pos, &cnt); cif_loop_tp *l = NULL;
           li = slot(t->tok[pos], 'L', NLOOP);
-          rc = cif_container_create_loop(CONT[hi], cat, names, li >= 0 ? &l : NULL);
+          rc = API(cif_container_create_loop(CONT[hi], cat, names, li >= 0 ? &l : NULL));
           if (li >= 0 && (rc == CIF_OK || l)) store_loop(li, l);
           free_names(names); h_free(cat); put_rc(rc); } return; }
     if (strcmp(c, "loop.getcat") == 0 || strcmp(c, "loop.getitem") == 0) { NEED(4); GETSLOT(hi, 1, 'H', NCONT, CONT, 1);
         { int isnull, li = slot(t->tok[3], 'L', NLOOP), rc; UChar *s = tok_ustr(t->tok[2], &isnull); cif_loop_tp *l = NULL;
-          rc = (c[8] == 'c') ? cif_container_get_category_loop(CONT[hi], s, li >= 0 ? &l : NULL) : cif_container_get_item_loop(CONT[hi], s, li >= 0 ? &l : NULL);
+          rc = API((c[8] == 'c') ? cif_container_get_category_loop(CONT[hi], s, li >= 0 ? &l : NULL) : cif_container_get_item_loop(CONT[hi], s, li >= 0 ? &l : NULL));
           if (li >= 0 && (rc == CIF_OK || l)) store_loop(li, l);
           h_free(s); put_rc(rc); } return; }
     if (strcmp(c, "loop.all") == 0) { NEED(2); GETSLOT(hi, 1, 'H', NCONT, CONT, 1);
-        { cif_loop_tp **ls = NULL; int rc = cif_container_get_all_loops(CONT[hi], &ls), i;
+        { cif_loop_tp **ls = NULL; int rc = API(cif_container_get_all_loops(CONT[hi], &ls)), i;
           ob_printf(&OUT, "{\"rc\":%d,\"loops\":[", rc);
           if (rc == CIF_OK) { for (i = 0; ls[i]; i++) { if (i) ob_putc(&OUT, ','); dump_loop(&OUT, ls[i]); cif_loop_free(ls[i]); } free(ls); }
           ob_puts(&OUT, "]}"); } return; }
     if (strcmp(c, "loop.cat") == 0) { NEED(2); GETSLOT(li, 1, 'L', NLOOP, LOOPS, 1);
-        { UChar *cat = NULL; int rc = cif_loop_get_category(LOOPS[li], &cat); ob_printf(&OUT, "{\"rc\":%d,\"cat\":", rc); ob_jstr(&OUT, cat); ob_putc(&OUT, '}'); if (cat) free(cat); } return; }
+        { UChar *cat = NULL; int rc = API(cif_loop_get_category(LOOPS[li], &cat)); ob_printf(&OUT, "{\"rc\":%d,\"cat\":", rc); ob_jstr(&OUT, cat); ob_putc(&OUT, '}'); if (cat) free(cat); } return; }
     if (strcmp(c, "loop.setcat") == 0) { NEED(3); GETSLOT(li, 1, 'L', NLOOP, LOOPS, 1);
-        { int isnull; UChar *cat = tok_ustr(t->tok[2], &isnull); put_rc(cif_loop_set_category(LOOPS[li], cat)); h_free(cat); } return; }
+        { int isnull; UChar *cat = tok_ustr(t->tok[2], &isnull); put_rc(API(cif_loop_set_category(LOOPS[li], cat))); h_free(cat); } return; }
     if (strcmp(c, "loop.names") == 0) { NEED(2); GETSLOT(li, 1, 'L', NLOOP, LOOPS, 1);
-        { UChar **names = NULL; int rc = cif_loop_get_names(LOOPS[li], &names), i; ob_printf(&OUT, "{\"rc\":%d,\"names\":[", rc);
+        { UChar **names = NULL; int rc = API(cif_loop_get_names(LOOPS[li], &names)), i; ob_printf(&OUT, "{\"rc\":%d,\"names\":[", rc);
           if (rc == CIF_OK) { for (i = 0; names[i]; i++) { if (i) ob_putc(&OUT, ','); ob_jstr(&OUT, names[i]); free(names[i]); } free(names); }
           ob_puts(&OUT, "]}"); } return; }
     if (strcmp(c, "loop.additem") == 0) { NEED(4); GETSLOT(li, 1, 'L', NLOOP, LOOPS, 1);
         { int isnull, owned, rc; UChar *name = tok_ustr(t->tok[2], &isnull); cif_value_tp *v; t->pos = 3;
           if (parse_value_lit(t, &v, &owned)) { ob_puts(&OUT, "ERR value"); h_free(name); return; }
-          rc = cif_loop_add_item(LOOPS[li], name, v); if (owned && v) cif_value_free(v); h_free(name); put_rc(rc); } return; }
+          rc = API(cif_loop_add_item(LOOPS[li], name, v)); if (owned && v) cif_value_free(v); h_free(name); put_rc(rc); } return; }
     if (strcmp(c, "loop.addpkt") == 0) { NEED(3); GETSLOT(li, 1, 'L', NLOOP, LOOPS, 1); GETSLOT(pi, 2, 'P', NPKT, PKT, 1);
-        put_rc(cif_loop_add_packet(LOOPS[li], PKT[pi])); return; }
+        put_rc(API(cif_loop_add_packet(LOOPS[li], PKT[pi]))); return; }
     if (strcmp(c, "loop.destroy") == 0) { NEED(2); GETSLOT(li, 1, 'L', NLOOP, LOOPS, 1);
-        { int rc = cif_loop_destroy(LOOPS[li]); if (rc == CIF_OK) LOOPS[li] = NULL; put_rc(rc); } return; }
+        { int rc = API(cif_loop_destroy(LOOPS[li])); if (rc == CIF_OK) LOOPS[li] = NULL; put_rc(rc); } return; }
     if (strcmp(c, "loop.free") == 0) { NEED(2); GETSLOT(li, 1, 'L', NLOOP, LOOPS, 1); cif_loop_free(LOOPS[li]); LOOPS[li] = NULL; put_rc(0); return; }
     if (strcmp(c, "loop.dump") == 0) { NEED(2); GETSLOT(li, 1, 'L', NLOOP, LOOPS, 1); dump_loop(&OUT, LOOPS[li]); return; }
     if (strcmp(c, "item.get") == 0) { NEED(3); GETSLOT(hi, 1, 'H', NCONT, CONT, 1);
         { int isnull, rc, vi = t->n > 3 ? slot(t->tok[3], 'V', NVAL) : -1, novalue = (t->n > 3 && strcmp(t->tok[3], "-") == 0);
           UChar *name = tok_ustr(t->tok[2], &isnull); cif_value_tp *v = (vi >= 0) ? VAL[vi] : NULL;
-          rc = cif_container_get_value(CONT[hi], name, novalue ? NULL : &v);
+          rc = API(cif_container_get_value(CONT[hi], name, novalue ? NULL : &v));
           ob_printf(&OUT, "{\"rc\":%d,\"v\":", rc);
           if (rc == CIF_OK || rc == CIF_AMBIGUOUS_ITEM) dump_value(&OUT, v); else ob_puts(&OUT, "null");
           ob_putc(&OUT, '}');
@@ -585,29 +589,29 @@ static void exec_cmd(toks *t) {
     if (strcmp(c, "item.set") == 0) { NEED(4); GETSLOT(hi, 1, 'H', NCONT, CONT, 1);
         { int isnull, owned, rc; UChar *name = tok_ustr(t->tok[2], &isnull); cif_value_tp *v; t->pos = 3;
           if (parse_value_lit(t, &v, &owned)) { ob_puts(&OUT, "ERR value"); h_free(name); return; }
-          rc = cif_container_set_value(CONT[hi], name, v); if (owned && v) cif_value_free(v); h_free(name); put_rc(rc); } return; }
+          rc = API(cif_container_set_value(CONT[hi], name, v)); if (owned && v) cif_value_free(v); h_free(name); put_rc(rc); } return; }
     if (strcmp(c, "item.remove") == 0) { NEED(3); GETSLOT(hi, 1, 'H', NCONT, CONT, 1);
-        { int isnull; UChar *name = tok_ustr(t->tok[2], &isnull); put_rc(cif_container_remove_item(CONT[hi], name)); h_free(name); } return; }
+        { int isnull; UChar *name = tok_ustr(t->tok[2], &isnull); put_rc(API(cif_container_remove_item(CONT[hi], name))); h_free(name); } return; }
     /* packets */
     if (strcmp(c, "pkt.create") == 0) { /* pkt.create P n names... ; n=-1 => NULL */
         NEED(3); GETSLOT(pi, 1, 'P', NPKT, PKT, 0);
         { int pos = 2, cnt, rc; UChar **names = read_names(t, &pos, &cnt); cif_packet_tp *p = NULL;
-          rc = cif_packet_create(&p, names);
+          rc = API(cif_packet_create(&p, names));
           if (PKT[pi]) cif_packet_free(PKT[pi]); PKT[pi] = (rc == CIF_OK) ? p : NULL;
           free_names(names); put_rc(rc); } return; }
     if (strcmp(c, "pkt.set") == 0) { NEED(4); GETSLOT(pi, 1, 'P', NPKT, PKT, 1);
         { int isnull, owned, rc; UChar *name = tok_ustr(t->tok[2], &isnull); cif_value_tp *v; t->pos = 3;
           if (parse_value_lit(t, &v, &owned)) { ob_puts(&OUT, "ERR value"); h_free(name); return; }
-          rc = cif_packet_set_item(PKT[pi], name, v); if (owned && v) cif_value_free(v); h_free(name); put_rc(rc); } return; }
+          rc = API(cif_packet_set_item(PKT[pi], name, v)); if (owned && v) cif_value_free(v); h_free(name); put_rc(rc); } return; }
     if (strcmp(c, "pkt.get") == 0) { /* pkt.get P name [R<n>] */ NEED(3); GETSLOT(pi, 1, 'P', NPKT, PKT, 1);
         { int isnull, rc, ri = t->n > 3 ? slot(t->tok[3], 'R', NREF) : -1; UChar *name = tok_ustr(t->tok[2], &isnull); cif_value_tp *v = NULL;
-          rc = cif_packet_get_item(PKT[pi], name, (t->n > 3 && strcmp(t->tok[3], "-") == 0) ? NULL : &v);
+          rc = API(cif_packet_get_item(PKT[pi], name, (t->n > 3 && strcmp(t->tok[3], "-") == 0) ? NULL : &v));
           if (ri >= 0 && rc == CIF_OK) REF[ri] = v;
           ob_printf(&OUT, "{\"rc\":%d,\"v\":", rc); if (rc == CIF_OK) dump_value(&OUT, v); else ob_puts(&OUT, "null"); ob_putc(&OUT, '}');
           h_free(name); } return; }
     if (strcmp(c, "pkt.remove") == 0) { /* pkt.remove P name [V<n>|-] */ NEED(3); GETSLOT(pi, 1, 'P', NPKT, PKT, 1);
         { int isnull, rc, vi = t->n > 3 ? slot(t->tok[3], 'V', NVAL) : -1; UChar *name = tok_ustr(t->tok[2], &isnull); cif_value_tp *v = NULL;
-          rc = cif_packet_remove_item(PKT[pi], name, vi >= 0 ? &v : NULL);
+          rc = API(cif_packet_remove_item(PKT[pi], name, vi >= 0 ? &v : NULL));
           ob_printf(&OUT, "{\"rc\":%d,\"v\":", rc); if (vi >= 0 && rc == CIF_OK) dump_value(&OUT, v); else ob_puts(&OUT, "null"); ob_putc(&OUT, '}');
           if (vi >= 0 && rc == CIF_OK) { if (VAL[vi]) cif_value_free(VAL[vi]); VAL[vi] = v; }
           h_free(name); } return; }
@@ -615,74 +619,90 @@ static void exec_cmd(toks *t) {
     if (strcmp(c, "pkt.free") == 0) { NEED(2); GETSLOT(pi, 1, 'P', NPKT, PKT, 1); cif_packet_free(PKT[pi]); PKT[pi] = NULL; put_rc(0); return; }
     /* iterators */
     if (strcmp(c, "itr.open") == 0) { NEED(3); GETSLOT(li, 1, 'L', NLOOP, LOOPS, 1); GETSLOT(ii, 2, 'I', NITR, ITR, 0);
-        { cif_pktitr_tp *it = NULL; int rc = cif_loop_get_packets(LOOPS[li], &it); if (rc == CIF_OK) ITR[ii] = it; put_rc(rc); } return; }
+        { cif_pktitr_tp *it = NULL; int rc = API(cif_loop_get_packets(LOOPS[li], &it)); if (rc == CIF_OK) ITR[ii] = it; put_rc(rc); } return; }
     if (strcmp(c, "itr.next") == 0) { /* itr.next I [P<n>|-] */ NEED(2); GETSLOT(ii, 1, 'I', NITR, ITR, 1);
         { int pi = t->n > 2 ? slot(t->tok[2], 'P', NPKT) : -1, rc; cif_packet_tp *p = NULL, *mine = NULL;
-          if (t->n > 2 && strcmp(t->tok[2], "-") == 0) rc = cif_pktitr_next_packet(ITR[ii], NULL);
-          else if (pi >= 0) { rc = cif_pktitr_next_packet(ITR[ii], &PKT[pi]); p = PKT[pi]; }
-          else { rc = cif_pktitr_next_packet(ITR[ii], &mine); p = mine; }
+          if (t->n > 2 && strcmp(t->tok[2], "-") == 0) rc = API(cif_pktitr_next_packet(ITR[ii], NULL));
+          else if (pi >= 0) { rc = API(cif_pktitr_next_packet(ITR[ii], &PKT[pi])); p = PKT[pi]; }
+          else { rc = API(cif_pktitr_next_packet(ITR[ii], &mine)); p = mine; }
           ob_printf(&OUT, "{\"rc\":%d,\"p\":", rc); if (rc == CIF_OK && p) dump_packet(&OUT, p); else ob_puts(&OUT, "null"); ob_putc(&OUT, '}');
           if (mine) cif_packet_free(mine); } return; }
     if (strcmp(c, "itr.update") == 0) { NEED(3); GETSLOT(ii, 1, 'I', NITR, ITR, 1); GETSLOT(pi, 2, 'P', NPKT, PKT, 1);
-        put_rc(cif_pktitr_update_packet(ITR[ii], PKT[pi])); return; }
-    if (strcmp(c, "itr.remove") == 0) { NEED(2); GETSLOT(ii, 1, 'I', NITR, ITR, 1); put_rc(cif_pktitr_remove_packet(ITR[ii])); return; }
+        put_rc(API(cif_pktitr_update_packet(ITR[ii], PKT[pi]))); return; }
+    if (strcmp(c, "itr.remove") == 0) { NEED(2); GETSLOT(ii, 1, 'I', NITR, ITR, 1); put_rc(API(cif_pktitr_remove_packet(ITR[ii]))); return; }
     if (strcmp(c, "itr.close") == 0 || strcmp(c, "itr.abort") == 0) { NEED(2); GETSLOT(ii, 1, 'I', NITR, ITR, 1);
-        { int rc = (c[4] == 'c') ? cif_pktitr_close(ITR[ii]) : cif_pktitr_abort(ITR[ii]); ITR[ii] = NULL; put_rc(rc); } return; }
+        { int rc = API((c[4] == 'c') ? cif_pktitr_close(ITR[ii]) : cif_pktitr_abort(ITR[ii])); ITR[ii] = NULL; put_rc(rc); } return; }
     /* values */
     if (strcmp(c, "val.new") == 0) { /* val.new V <literal> */ NEED(3); GETSLOT(vi, 1, 'V', NVAL, VAL, 0);
         { cif_value_tp *v; int owned, rc; t->pos = 2; rc = parse_value_lit(t, &v, &owned);
           if (rc) { ob_printf(&OUT, "{\"rc\":%d}", rc); return; }
-          if (!owned && v) { cif_value_tp *cl = NULL; rc = cif_value_clone(v, &cl); v = cl; }
+          if (!owned && v) { cif_value_tp *cl = NULL; rc = API(cif_value_clone(v, &cl)); v = cl; }
           if (VAL[vi]) cif_value_free(VAL[vi]); VAL[vi] = v; put_rc(rc); } return; }
     if (strcmp(c, "val.create") == 0) { NEED(3); GETSLOT(vi, 1, 'V', NVAL, VAL, 0);
-        { cif_value_tp *v = NULL; int rc = cif_value_create((cif_kind_tp) atoi(t->tok[2]), &v);
+        { cif_value_tp *v = NULL; int rc = API(cif_value_create((cif_kind_tp) atoi(t->tok[2]), &v));
           if (rc == CIF_OK) { if (VAL[vi]) cif_value_free(VAL[vi]); VAL[vi] = v; } put_rc(rc); } return; }
 #define VREF(var, idx) cif_value_tp *var = NULL; { const char *tk_ = t->tok[idx]; int s_; \
         if ((s_ = slot(tk_, 'V', NVAL)) >= 0) var = VAL[s_]; else if ((s_ = slot(tk_, 'R', NREF)) >= 0) var = REF[s_]; \
         if (!var) { ob_printf(&OUT, "ERR value ref %s", tk_); return; } }
-    if (strcmp(c, "val.init") == 0) { NEED(3); { VREF(v, 1); put_rc(cif_value_init(v, (cif_kind_tp) atoi(t->tok[2]))); } return; }
-    if (strcmp(c, "val.copychar") == 0) { NEED(3); { VREF(v, 1); { int isnull; UChar *s = tok_ustr(t->tok[2], &isnull); put_rc(cif_value_copy_char(v, s)); h_free(s); } } return; }
+    if (strcmp(c, "val.init") == 0) { NEED(3); { VREF(v, 1); put_rc(API(cif_value_init(v, (cif_kind_tp) atoi(t->tok[2])))); } return; }
+    if (strcmp(c, "val.copychar") == 0) { NEED(3); { VREF(v, 1); { int isnull; UChar *s = tok_ustr(t->tok[2], &isnull); put_rc(API(cif_value_copy_char(v, s))); h_free(s); } } return; }
     if (strcmp(c, "val.initchar") == 0) { NEED(3); { VREF(v, 1); { int isnull, rc; UChar *s = tok_ustr(t->tok[2], &isnull); UChar *lib = s ? cif_u_strdup(s) : NULL;
-          rc = cif_value_init_char(v, lib); if (rc != CIF_OK && lib) free(lib); h_free(s); put_rc(rc); } } return; }
+          rc = API(cif_value_init_char(v, lib)); if (rc != CIF_OK && lib) free(lib); h_free(s); put_rc(rc); } } return; }
     if (strcmp(c, "val.parsenumb") == 0) { NEED(3); { VREF(v, 1); { int isnull, rc; UChar *s = tok_ustr(t->tok[2], &isnull); UChar *lib = s ? cif_u_strdup(s) : NULL;
-          rc = cif_value_parse_numb(v, lib); if (rc != CIF_OK && lib) free(lib); h_free(s); put_rc(rc); } } return; }
-    if (strcmp(c, "val.initnumb") == 0) { NEED(6); { VREF(v, 1); put_rc(cif_value_init_numb(v, strtod(t->tok[2], NULL), strtod(t->tok[3], NULL), atoi(t->tok[4]), atoi(t->tok[5]))); } return; }
-    if (strcmp(c, "val.autoinit") == 0) { NEED(5); { VREF(v, 1); put_rc(cif_value_autoinit_numb(v, strtod(t->tok[2], NULL), strtod(t->tok[3], NULL), (unsigned) atoi(t->tok[4]))); } return; }
+          rc = API(cif_value_parse_numb(v, lib)); if (rc != CIF_OK && lib) free(lib); h_free(s); put_rc(rc); } } return; }
+    if (strcmp(c, "val.initnumb") == 0) { NEED(6); { VREF(v, 1); put_rc(API(cif_value_init_numb(v, strtod(t->tok[2], NULL), strtod(t->tok[3], NULL), atoi(t->tok[4]), atoi(t->tok[5])))); } return; }
+    if (strcmp(c, "val.autoinit") == 0) { NEED(5); { VREF(v, 1); put_rc(API(cif_value_autoinit_numb(v, strtod(t->tok[2], NULL), strtod(t->tok[3], NULL), (unsigned) atoi(t->tok[4])))); } return; }
     if (strcmp(c, "val.clone") == 0) { /* val.clone <src> V<dst> [into]  : "into" clones into the existing object of the slot */
         NEED(3); { VREF(v, 1); { GETSLOT(di, 2, 'V', NVAL, VAL, 0);
-          { int into = (t->n > 3 && strcmp(t->tok[3], "into") == 0 && VAL[di]); cif_value_tp *cl = into ? VAL[di] : NULL; int rc = cif_value_clone(v, &cl);
+          { int into = (t->n > 3 && strcmp(t->tok[3], "into") == 0 && VAL[di]); cif_value_tp *cl = into ? VAL[di] : NULL; int rc = API(cif_value_clone(v, &cl));
             if (rc == CIF_OK && !into) { if (VAL[di]) cif_value_free(VAL[di]); VAL[di] = cl; } put_rc(rc); } } } return; }
     if (strcmp(c, "val.clean") == 0) { NEED(2); { VREF(v, 1); cif_value_clean(v); put_rc(0); } return; }
     if (strcmp(c, "val.free") == 0) { NEED(2); GETSLOT(vi, 1, 'V', NVAL, VAL, 1); cif_value_free(VAL[vi]); VAL[vi] = NULL; put_rc(0); return; }
     if (strcmp(c, "val.setquoted") == 0 || strcmp(c, "val.tryquoted") == 0) { NEED(3); { VREF(v, 1);
-          put_rc(c[4] == 's' ? cif_value_set_quoted(v, (cif_quoted_tp) atoi(t->tok[2])) : cif_value_try_quoted(v, (cif_quoted_tp) atoi(t->tok[2]))); } return; }
+          put_rc(API(c[4] == 's' ? cif_value_set_quoted(v, (cif_quoted_tp) atoi(t->tok[2])) : cif_value_try_quoted(v, (cif_quoted_tp) atoi(t->tok[2])))); } return; }
     if (strcmp(c, "val.dump") == 0) { NEED(2); { VREF(v, 1); dump_value(&OUT, v); } return; }
-    if (strcmp(c, "val.getnum") == 0) { NEED(2); { VREF(v, 1); { double d = 0, su = 0; int r1 = cif_value_get_number(v, &d), r2 = cif_value_get_su(v, &su);
+    if (strcmp(c, "val.getnum") == 0) { NEED(2); { VREF(v, 1); { double d = 0, su = 0; int r1 = API(cif_value_get_number(v, &d)), r2 = API(cif_value_get_su(v, &su));
           ob_printf(&OUT, "{\"rc\":%d,\"num\":\"%.17g\",\"rc2\":%d,\"su\":\"%.17g\",\"v\":", r1, d, r2, su); dump_value(&OUT, v); ob_putc(&OUT, '}'); } } return; }
-    if (strcmp(c, "val.count") == 0) { NEED(2); { VREF(v, 1); { size_t n = 0; int rc = cif_value_get_element_count(v, &n); ob_printf(&OUT, "{\"rc\":%d,\"n\":%lu}", rc, (unsigned long) n); } } return; }
+    if (strcmp(c, "val.num1") == 0 || strcmp(c, "val.su1") == 0) { NEED(2); { VREF(v, 1); { double d = 0; int rc = API(c[4] == 'n' ? cif_value_get_number(v, &d) : cif_value_get_su(v, &d));
+          ob_printf(&OUT, "{\"rc\":%d,\"num\":\"%.17g\"}", rc, d); } } return; }
+    if (strcmp(c, "val.count") == 0) { NEED(2); { VREF(v, 1); { size_t n = 0; int rc = API(cif_value_get_element_count(v, &n)); ob_printf(&OUT, "{\"rc\":%d,\"n\":%lu}", rc, (unsigned long) n); } } return; }
     if (strcmp(c, "val.getel") == 0) { /* val.getel <v> idx R<n>|- */ NEED(4); { VREF(v, 1); { int ri = slot(t->tok[3], 'R', NREF), rc; cif_value_tp *e = NULL;
-          rc = cif_value_get_element_at(v, (size_t) strtoul(t->tok[2], NULL, 10), &e); if (ri >= 0 && rc == CIF_OK) REF[ri] = e;
+          rc = API(cif_value_get_element_at(v, (size_t) strtoul(t->tok[2], NULL, 10), &e)); if (ri >= 0 && rc == CIF_OK) REF[ri] = e;
           ob_printf(&OUT, "{\"rc\":%d,\"v\":", rc); if (rc == CIF_OK) dump_value(&OUT, e); else ob_puts(&OUT, "null"); ob_putc(&OUT, '}'); } } return; }
     if (strcmp(c, "val.setel") == 0 || strcmp(c, "val.insel") == 0) { NEED(4); { VREF(v, 1); { cif_value_tp *e; int owned, rc; t->pos = 3;
           if (parse_value_lit(t, &e, &owned)) { ob_puts(&OUT, "ERR value"); return; }
-          rc = (c[4] == 's') ? cif_value_set_element_at(v, (size_t) strtoul(t->tok[2], NULL, 10), e) : cif_value_insert_element_at(v, (size_t) strtoul(t->tok[2], NULL, 10), e);
+          rc = API((c[4] == 's') ? cif_value_set_element_at(v, (size_t) strtoul(t->tok[2], NULL, 10), e) : cif_value_insert_element_at(v, (size_t) strtoul(t->tok[2], NULL, 10), e));
           if (owned && e) cif_value_free(e); put_rc(rc); } } return; }
     if (strcmp(c, "val.remel") == 0) { /* val.remel <v> idx V<n>|- */ NEED(4); { VREF(v, 1); { int vi = slot(t->tok[3], 'V', NVAL), rc; cif_value_tp *e = NULL;
-          rc = cif_value_remove_element_at(v, (size_t) strtoul(t->tok[2], NULL, 10), vi >= 0 ? &e : NULL);
+          rc = API(cif_value_remove_element_at(v, (size_t) strtoul(t->tok[2], NULL, 10), vi >= 0 ? &e : NULL));
           ob_printf(&OUT, "{\"rc\":%d,\"v\":", rc); if (vi >= 0 && rc == CIF_OK) dump_value(&OUT, e); else ob_puts(&OUT, "null"); ob_putc(&OUT, '}');
           if (vi >= 0 && rc == CIF_OK) { if (VAL[vi]) cif_value_free(VAL[vi]); VAL[vi] = e; } } } return; }
-    if (strcmp(c, "val.keys") == 0) { NEED(2); { VREF(v, 1); { const UChar **keys = NULL; int rc = cif_value_get_keys(v, &keys), i; ob_printf(&OUT, "{\"rc\":%d,\"keys\":[", rc);
+    if (strcmp(c, "val.keys") == 0) { NEED(2); { VREF(v, 1); { const UChar **keys = NULL; int rc = API(cif_value_get_keys(v, &keys)), i; ob_printf(&OUT, "{\"rc\":%d,\"keys\":[", rc);
           if (rc == CIF_OK) { for (i = 0; keys[i]; i++) { if (i) ob_putc(&OUT, ','); ob_jstr(&OUT, keys[i]); } free(keys); } ob_puts(&OUT, "]}"); } } return; }
     if (strcmp(c, "val.setkey") == 0) { NEED(4); { VREF(v, 1); { int isnull, owned, rc; UChar *key = tok_ustr(t->tok[2], &isnull); cif_value_tp *e; t->pos = 3;
           if (parse_value_lit(t, &e, &owned)) { ob_puts(&OUT, "ERR value"); h_free(key); return; }
-          rc = cif_value_set_item_by_key(v, key, e); if (owned && e) cif_value_free(e); h_free(key); put_rc(rc); } } return; }
+          rc = API(cif_value_set_item_by_key(v, key, e)); if (owned && e) cif_value_free(e); h_free(key); put_rc(rc); } } return; }
     if (strcmp(c, "val.getkey") == 0) { /* val.getkey <v> key R<n>|- */ NEED(4); { VREF(v, 1); { int isnull, ri = slot(t->tok[3], 'R', NREF), rc; UChar *key = tok_ustr(t->tok[2], &isnull); cif_value_tp *e = NULL;
-          rc = cif_value_get_item_by_key(v, key, &e); if (ri >= 0 && rc == CIF_OK) REF[ri] = e;
+          rc = API(cif_value_get_item_by_key(v, key, &e)); if (ri >= 0 && rc == CIF_OK) REF[ri] = e;
           ob_printf(&OUT, "{\"rc\":%d,\"v\":", rc); if (rc == CIF_OK) dump_value(&OUT, e); else ob_puts(&OUT, "null"); ob_putc(&OUT, '}'); h_free(key); } } return; }
     if (strcmp(c, "val.remkey") == 0) { /* val.remkey <v> key V<n>|- */ NEED(4); { VREF(v, 1); { int isnull, vi = slot(t->tok[3], 'V', NVAL), rc; UChar *key = tok_ustr(t->tok[2], &isnull); cif_value_tp *e = NULL;
-          rc = cif_value_remove_item_by_key(v, key, vi >= 0 ? &e : NULL);
+          rc = API(cif_value_remove_item_by_key(v, key, vi >= 0 ? &e : NULL));
           ob_printf(&OUT, "{\"rc\":%d,\"v\":", rc); if (vi >= 0 && rc == CIF_OK) dump_value(&OUT, e); else ob_puts(&OUT, "null"); ob_putc(&OUT, '}');
           if (vi >= 0 && rc == CIF_OK) { if (VAL[vi]) cif_value_free(VAL[vi]); VAL[vi] = e; } h_free(key); } } return; }
+    if (strcmp(c, "val.text") == 0) { NEED(2); { VREF(v, 1); { UChar *txt = NULL; int rc = API(cif_value_get_text(v, &txt)); ob_printf(&OUT, "{\"rc\":%d,\"text\":", rc);
+          ob_jstr(&OUT, rc == CIF_OK ? txt : NULL); ob_putc(&OUT, '}'); if (rc == CIF_OK && txt) free(txt); } } return; }
+    if (strcmp(c, "util.norm") == 0) { /* util.norm <ustr> */ NEED(2); { int isnull, rc; UChar *s = tok_ustr(t->tok[1], &isnull), *r = NULL;
+          rc = API(cif_normalize(s, -1, &r)); ob_printf(&OUT, "{\"rc\":%d,\"text\":", rc); ob_jstr(&OUT, rc == CIF_OK ? r : NULL); ob_putc(&OUT, '}');
+          if (rc == CIF_OK && r) free(r); h_free(s); } return; }
+    if (strcmp(c, "util.cstr") == 0) { /* util.cstr <hex bytes> */ NEED(2); { unsigned char *p = NULL; size_t n = hex_to_bytes(t->tok[1], &p); UChar *r = NULL; int rc;
+          p[n] = 0; rc = API(cif_cstr_to_ustr((const char *) p, -1, &r)); ob_printf(&OUT, "{\"rc\":%d,\"text\":", rc); ob_jstr(&OUT, rc == CIF_OK ? r : NULL); ob_putc(&OUT, '}');
+          if (rc == CIF_OK && r) free(r); h_free(p); } return; }
+    if (strcmp(c, "util.strdup") == 0) { NEED(2); { int isnull; UChar *s = tok_ustr(t->tok[1], &isnull), *r = API(cif_u_strdup(s));
+          ob_printf(&OUT, "{\"rc\":%d,\"text\":", r ? 0 : CIF_MEMORY_ERROR); ob_jstr(&OUT, r); ob_putc(&OUT, '}'); if (r) free(r); h_free(s); } return; }
+    if (strcmp(c, "util.opts") == 0) { /* util.opts p|w */ NEED(2); { int rc;
+          if (t->tok[1][0] == 'p') { struct cif_parse_opts_s *o = NULL; rc = API(cif_parse_options_create(&o)); if (rc == CIF_OK) free(o); }
+          else { struct cif_write_opts_s *o = NULL; rc = API(cif_write_options_create(&o)); if (rc == CIF_OK) free(o); }
+          put_rc(rc); } return; }
     if (strcmp(c, "ref.clear") == 0) { int i; for (i = 0; i < NREF; i++) REF[i] = NULL; put_rc(0); return; }
     /* byte buffers */
     if (strcmp(c, "bytes.set") == 0 || strcmp(c, "bytes.app") == 0) { NEED(2); int bi = slot(t->tok[1], 'B', NBUF); if (bi < 0) { ob_puts(&OUT, "ERR slot"); return; }
@@ -730,10 +750,27 @@ static void exec_cmd(toks *t) {
     if (strcmp(c, "setlocale") == 0) { NEED(2); { const char *r = setlocale(LC_ALL, t->tok[1]); ob_puts(&OUT, "{\"rc\":0,\"locale\":"); ob_jcstr(&OUT, r); ob_putc(&OUT, '}'); } return; }
     if (strcmp(c, "setround") == 0) { NEED(2); { int m = atoi(t->tok[1]); int modes[4] = { FE_TONEAREST, FE_DOWNWARD, FE_UPWARD, FE_TOWARDZERO }; put_rc(fesetround(modes[m & 3])); } return; }
     if (strcmp(c, "defconv") == 0) { NEED(2); ucnv_setDefaultName(t->tok[1]); ob_puts(&OUT, "{\"rc\":0,\"name\":"); ob_jcstr(&OUT, ucnv_getDefaultName()); ob_putc(&OUT, '}'); return; }
-    if (strcmp(c, "fault.arm") == 0) { NEED(2); wrap_arm(atol(t->tok[1])); put_rc(0); return; }
+    if (strcmp(c, "fault.arm") == 0) { /* fault.arm <k> [domain 0|1|2] */ NEED(2); wrap_domain(t->n > 2 ? atoi(t->tok[2]) : 0); wrap_arm(atol(t->tok[1])); put_rc(0); return; }
+    if (strcmp(c, "fault.domain") == 0) { NEED(2); wrap_domain(atoi(t->tok[1])); put_rc(0); return; }
     if (strcmp(c, "fault.off") == 0) { int f = wrap_fired(); wrap_arm(0); ob_printf(&OUT, "{\"rc\":0,\"fired\":%d}", f); return; }
     if (strcmp(c, "count.reset") == 0) { wrap_count_reset(); put_rc(0); return; }
     ob_printf(&OUT, "ERR unknown command %s", c);
+}
+
+/* SQLite and ICU allocate through their own hooks, so that single allocation failures can be injected there as well */
+static sqlite3_mem_methods SQ_DEFAULT;
+static void *sq_malloc(int n) { if (wrap_should_fail(1)) return NULL; return SQ_DEFAULT.xMalloc(n); }
+static void *sq_realloc(void *p, int n) { if (wrap_should_fail(1)) return NULL; return SQ_DEFAULT.xRealloc(p, n); }
+static void *icu_alloc(const void *ctx, size_t n) { (void) ctx; if (wrap_should_fail(2)) return NULL; return h_malloc(n); }
+static void *icu_realloc(const void *ctx, void *p, size_t n) { (void) ctx; if (wrap_should_fail(2)) return NULL; return h_realloc(p, n); }
+static void icu_free(const void *ctx, void *p) { (void) ctx; h_free(p); }
+static void install_allocators(void) {
+    sqlite3_mem_methods m; UErrorCode e = U_ZERO_ERROR;
+    if (sqlite3_config(SQLITE_CONFIG_GETMALLOC, &SQ_DEFAULT) == SQLITE_OK) {
+        m = SQ_DEFAULT; m.xMalloc = sq_malloc; m.xRealloc = sq_realloc;
+        (void) sqlite3_config(SQLITE_CONFIG_MALLOC, &m);
+    }
+    u_setMemoryFunctions(NULL, icu_alloc, icu_realloc, icu_free, &e);
 }
 
 int main(int argc, char **argv) {
@@ -741,6 +778,7 @@ int main(int argc, char **argv) {
     char **script = NULL; size_t ns = 0, caps = 0, i;
     (void) argc; (void) argv;
     setvbuf(stdout, NULL, _IOFBF, 1 << 16);
+    if (getenv("CIFX_ALLOCATORS")) install_allocators();
     ucnv_setDefaultName("US-ASCII");
     while ((len = getline(&line, &cap, stdin)) >= 0) {
         while (len > 0 && (line[len - 1] == '\n' || line[len - 1] == '\r')) line[--len] = 0;
